@@ -782,6 +782,15 @@ again:
 		return MACRO;
 	}
 
+	/*
+	 * A NUL character must not be mistaken for the end of the file, that
+	 * would silently ignore the rest of the configuration.
+	 */
+	if (c == '\0') {
+		yyerror("invalid NUL character");
+		goto again;
+	}
+
 	return c;
 }
 
